@@ -256,7 +256,7 @@ pub fn run_detached(seed: u64, yield_only: bool) -> Outcome {
                     continue;
                 }
                 let a: ActorRef<PMsg> = c.clone().into();
-                super::c02::do_send(&tr, &a, s as u32, j, vec![], sp.below(3));
+                super::c02::do_send(&tr, &a, s as u32, j, vec![], *sp.pick(&[0u64, 1, 2, 4, 4]));
             }
         }));
     }
@@ -382,7 +382,7 @@ async fn live_vt_body(seed: u64, trace: Arc<Trace>) -> (Vec<String>, Stage, bool
     let send_some = |from: u64, n: u64, trace: &Arc<Trace>, actor: &ActorRef<PMsg>, p: &mut Prng| {
         for j in 0..n {
             let script = if p.chance(1, 3) { vec![Step::Sleep(p.range(1, 4))] } else { vec![Step::Yield] };
-            super::c02::do_send(trace, actor, from as u32, j, script, p.below(3));
+            super::c02::do_send(trace, actor, from as u32, j, script, *p.pick(&[0u64, 1, 2, 4]));
         }
     };
     if stage == Stage::BeforeStart {
@@ -588,7 +588,7 @@ pub fn run_live_th(seed: u64, rt: &tokio::runtime::Runtime) -> Outcome {
                 } else {
                     vec![]
                 };
-                super::c02::do_send(&tr, &a, s as u32, j, script, sp.below(3));
+                super::c02::do_send(&tr, &a, s as u32, j, script, *sp.pick(&[0u64, 1, 2, 4]));
             }
         }));
     }
